@@ -52,7 +52,7 @@ type batchResult struct {
 	Layer      string            `json:"layer"`
 	Runs       int               `json:"runs"`
 	Counters   map[string]int64  `json:"counters"`
-	SimNanos   int64             `json:"sim_nanos"`
+	SimSeconds float64           `json:"sim_seconds"`
 	Hashes     []string          `json:"hashes"`
 	Samples    []json.RawMessage `json:"samples"`
 	Violations []found           `json:"violations"`
@@ -189,15 +189,15 @@ func crashSig(stderr string) (sig string, isRepo bool) {
 }
 
 type layerTotals struct {
-	Runs     int
-	Counters map[string]int64
-	SimNanos int64
-	Hashes   map[string]bool
-	Samples  []json.RawMessage
-	Found    []found
-	Troubles []string
-	Wall     float64
-	Crashes  int
+	Runs       int
+	Counters   map[string]int64
+	SimSeconds float64
+	Hashes     map[string]bool
+	Samples    []json.RawMessage
+	Found      []found
+	Troubles   []string
+	Wall       float64
+	Crashes    int
 }
 
 func runLayer(layer string, total int, capSecs int) *layerTotals {
@@ -232,7 +232,7 @@ func runLayer(layer string, total int, capSecs int) *layerTotals {
 		mu.Lock()
 		defer mu.Unlock()
 		lt.Runs += r.Runs
-		lt.SimNanos += r.SimNanos
+		lt.SimSeconds += r.SimSeconds
 		for k, v := range r.Counters {
 			lt.Counters[k] += v
 		}
@@ -688,7 +688,7 @@ func main() {
 	evalTotal := 0
 	hashes := map[string]bool{}
 	counters := map[string]int64{}
-	var simNanos int64
+	var simSeconds float64
 	var samples []json.RawMessage
 	layerInfo := map[string]any{}
 	for name, lt := range layers {
@@ -699,7 +699,7 @@ func main() {
 		for k, v := range lt.Counters {
 			counters[k] += v
 		}
-		simNanos += lt.SimNanos
+		simSeconds += lt.SimSeconds
 		samples = append(samples, lt.Samples...)
 		layerInfo[name] = map[string]any{"runs": lt.Runs, "wall_s": lt.Wall, "distinct_nontrivial": len(lt.Hashes), "worker_crashes": lt.Crashes}
 	}
@@ -734,7 +734,7 @@ func main() {
 			"samples":                  samples,
 			"runs_per_hour":            int(float64(evalTotal) / wall * 3600),
 			"seeds":                    fmt.Sprintf("run i uses seed %d*1000003+i, i in [0,%d)", base, nSim),
-			"simulated_seconds":        float64(simNanos) / 1e9,
+			"simulated_seconds":        simSeconds,
 			"faults_fired":             faults,
 			"probes":                   probes,
 			"counters":                 other,
@@ -757,7 +757,7 @@ func main() {
 		trouble("write evidence: %v", err)
 	}
 	fmt.Printf("property=%s tier=%s runs=%d distinct_nontrivial=%d sim_seconds=%.0f wall=%.1fs violations=%d trouble=%d\n",
-		prop, tier, evalTotal, len(hashes), float64(simNanos)/1e9, wall, totalViol, len(troubles))
+		prop, tier, evalTotal, len(hashes), simSeconds, wall, totalViol, len(troubles))
 	if len(troubles) > 0 {
 		for i, t := range troubles {
 			if i < 5 {
